@@ -294,6 +294,8 @@ func ruleCondContext(c *Ctx) {
 		},
 	}})
 	callerComparisonsGuarded(c)
+	verificationHasNoCaller(c)
+	overrideOutlivesCallout(c)
 	pk := c.P.Pkg(txPkg)
 	if pk == nil {
 		c.Lost("anchor", "package transaction not found")
